@@ -37,6 +37,18 @@ var c15Benign = []string{
 	"<%= \"str with %> inside\" %>\n",
 	"a\n\n\nb\n",
 	"<%= if (false) { %>\nno\n<% } else { %>\nyes\n<% } %>\n",
+	// a line break right after each thing the lexer treats specially in text and in tags
+	"an escaped opener ends the line \\<%\n",
+	"\\<%\n\\<%\n",
+	"\\<%\r\n%>\n",
+	"two backslashes before a tag \\\\<%= 1 %>\n",
+	"text ending in a backslash \\\n",
+	"<%= 1 %>\r\n\r\n",
+	"<%\n\n%>\n",
+	"<%= \"a\\\"\nb\" %>\n",
+	"<%= `a` %>\\<%\n",
+	"<% let d1 = 4 # comment at the end\n %>\n",
+	"<%= [1,\n2,\n3] %>\n<%= {\"k\":\n1}[\"k\"] %>\n",
 }
 
 type c15Fault struct {
